@@ -183,20 +183,20 @@ _T1 = ('contract-based deductive verification: pre/postconditions, loop invarian
        '(pyvc) and discharged by z3; ')
 _T3 = 'the parts outside the contracts are decided by bounded native contract evaluation (labelled bounded, never counted as proved)'
 TECHNIQUE = {
-    'C01': _T1 + 'row loop of execute_select against a recursive specification, node classes, operator bodies; ' + _T3,
-    'C02': _T1 + 'allocator and aggregator update / initialize / finalize with slot frames; the group loop: ' + _T3,
+    'C01': _T1 + 'row loop of execute_select against a recursive specification, node classes, operator bodies, row condition assembled by _compile_select (FROM and WHERE); ' + _T3,
+    'C02': _T1 + 'allocator and aggregator update / initialize / finalize with slot frames, group-key resolution and HAVING in _compile_group_by; the group loop: ' + _T3,
     'C03': _T1 + 'NullType order, nullitemgetter closures, uniquify against a recursive specification, ORDER BY key resolution, DISTINCT/LIMIT pipeline of execute_select; the multi-pass sort: ' + _T3,
     'C04': _T1 + 'type-tag obligations on node classes and column accessors; registry sweep: ' + _T3,
-    'C05': _T1 + 'raises-iff contracts of the clause compilers (PIVOT BY, ORDER BY), get_target_name; statement-level acceptance: ' + _T3,
+    'C05': _T1 + 'contracts of the clause compilers (targets, GROUP BY / HAVING, ORDER BY, PIVOT BY, FROM) and of their assembly in _compile_select, get_target_name; statement-level acceptance: ' + _T3,
     'C06': 'bounded native contract evaluation only (parse(print(a)) == a over enumerated ASTs; generated parser == grammar translation): the deciding code is the TatSu runtime, '
            'no function contract on it is discharged - nothing is counted as proved',
-    'C07': _T1 + 'description / projection of execute_select, get_target_name, hidden ORDER BY targets; ' + _T3,
+    'C07': _T1 + 'description / projection of execute_select, target compilation and naming (_compile_targets, get_target_name), hidden GROUP BY / ORDER BY targets, written targets first (_compile_select); ' + _T3,
     'C08': _T1 + 'frame of the compiler state across nested SELECTs (Compiler._select), IN-subquery node caching; structural obligation that no expression handler writes Compiler.table; composition: ' + _T3,
     'C09': _T1 + 'Cursor.execute state re-establishment, EvalConstant, BeanTable.update/prepare frames; histories: ' + _T3,
     'C10': _T1 + 'representation invariant and DB-API postcondition of every Cursor method, Column sequence protocol (all proved, unbounded)',
     'C11': _T1 + '32 column accessors against the naming rule; table iteration: ' + _T3,
     'C12': _T1 + 'aggregator initialize / slot frames; the inventory algebra is Beancount (trusted): ' + _T3,
-    'C13': _T1 + 'BeanTable.prepare (order and iff-conditions of open/close/clear, reads clause, no writes), BeanTable.update; balance preservation is a theorem about beancount.ops.summarize: ' + _T3,
+    'C13': _T1 + 'BeanTable.prepare (order and iff-conditions of open/close/clear, reads clause, no writes), BeanTable.update, _compile_from (the table is qualified with exactly the written qualifiers); balance preservation is a theorem about beancount.ops.summarize: ' + _T3,
     'C14': _T1 + 'transform_journal / transform_balances (clauses passed through, account pattern as a constant operand, no other clauses); result equality with the SELECT expansions and PRINT round trip: ' + _T3,
     'C15': _T1 + 'Compiler._compile_pivot_by (references resolve to selected targets, rejection rule); the reshaping itself: ' + _T3,
     'C16': _T1 + 'two-phase width protocol of the column renderers (update widens and covers, prepare fixes the width, decimals: integral/fractional maxima); table layout: ' + _T3,
@@ -206,8 +206,8 @@ TECHNIQUE = {
     'C20': 'ownership / frame obligations generated from the ast of /repo for every write site reachable from the execution entry points (structural, decided syntactically, no solver); '
            'deterministic two/three-thread schedules as bounded native stand-in',
 }
-MIN_T1 = {'C01': 63, 'C02': 40, 'C03': 38, 'C04': 45, 'C05': 26, 'C06': 0, 'C07': 21, 'C08': 22, 'C09': 14, 'C10': 34, 'C11': 47, 'C12': 3, 'C13': 5,
-          'C14': 5, 'C15': 5, 'C16': 24, 'C17': 5, 'C18': 58, 'C19': 39, 'C20': 98}
+MIN_T1 = {'C01': 68, 'C02': 85, 'C03': 42, 'C04': 45, 'C05': 100, 'C06': 0, 'C07': 88, 'C08': 26, 'C09': 14, 'C10': 34, 'C11': 47, 'C12': 3, 'C13': 15,
+          'C14': 5, 'C15': 5, 'C16': 24, 'C17': 5, 'C18': 58, 'C19': 39, 'C20': 100}
 for _p, _c in PROPS.items():
     _c['technique'] = TECHNIQUE[_p]
     _c['min_t1'] = MIN_T1[_p]
